@@ -19,3 +19,147 @@ Theorem C16_normalisation_sound :
     traceA (sstep d mid) s ins = traceA (sstep_n d T mid) n ins.
 Proof. exact norm_traces_s. Qed.
 Print Assumptions C16_normalisation_sound.
+
+(** ** all-size theorems about the AS-CODED models of the timing utilities (Models/TimingAll.v) *)
+From Cohdl Require Import Models.Ring Models.TimingAll Models.TimingAllProofs.
+Local Open Scope Z_scope.
+
+(** DelayLine, every length n >= 1, every width, every input sequence: as coded = specification machine *)
+Theorem C16_delay_line_model_is_spec_all_n : forall (n : nat) (w : BinNums.N) (i : Z) ins, (1 <= n)%nat ->
+  traceB (dline_step w) (dline_init n i) ins = traceB (delay_step w) (repeat i n) ins.
+Proof. exact dline_refines_delay. Qed.
+Print Assumptions C16_delay_line_model_is_spec_all_n.
+
+(** exact delay, every n >= 1: the output stream is the input stream preceded by n-1 copies of the initial value
+    (outputs are sampled after the clock edge that registered the current input: the value sampled after edge t
+    is the input of edge t-(n-1), it has passed through n registers) *)
+Theorem C16_delay_line_exact_all_n : forall (n : nat) (w : BinNums.N) (i : Z) (vs : list value), (1 <= n)%nat ->
+  traceB (dline_step w) (dline_init n i) (map (fun v => [v]) vs) =
+  map (fun o => Ok [ouns w o]) (firstn (length vs) (repeat i (n - 1) ++ map vnum vs)).
+Proof. exact delay_line_exact. Qed.
+Print Assumptions C16_delay_line_exact_all_n.
+
+Theorem C16_delay_line_exact_pointwise_all_n : forall (n : nat) (i : Z) (xs : list Z) (t : nat), (t < length xs)%nat ->
+  nth t (firstn (length xs) (repeat i (n - 1) ++ xs)) 0 =
+  if (t <? n - 1)%nat then i else nth (t - (n - 1)) xs 0.
+Proof. exact delay_line_nth. Qed.
+Print Assumptions C16_delay_line_exact_pointwise_all_n.
+
+Example C16_delay_line_nonvacuous :
+  (1 <= 3)%nat /\
+  traceB (dline_step 4) (dline_init 3 9) (map (fun v => [v]) [VV KUns 4 1; VV KUns 4 2; VV KUns 4 3; VV KUns 4 4; VV KUns 4 5]) =
+  [Ok [ouns 4 9]; Ok [ouns 4 9]; Ok [ouns 4 1]; Ok [ouns 4 2]; Ok [ouns 4 3]].
+Proof. vm_compute. repeat split; repeat constructor. Qed.
+
+(** continuous_counter, every constant limit: as coded = specification machine; exact period limit+1 *)
+Theorem C16_counter_model_is_spec_all_limits : forall (w : BinNums.N) (limit : Z) ins, 0 <= limit ->
+  traceB (ccounter_step w limit) [0] ins = traceB (counter_step w limit) [0] ins.
+Proof. exact ccounter_refines. Qed.
+Print Assumptions C16_counter_model_is_spec_all_limits.
+
+Theorem C16_counter_period_exact_all_limits : forall (w : BinNums.N) (limit : Z) ins, 0 <= limit ->
+  traceB (ccounter_step w limit) [0] ins =
+  map (fun t => Ok [ouns w (Z.of_nat (S t) mod (limit + 1))]) (seq 0 (length ins)).
+Proof. exact ccounter_closed_form. Qed.
+Print Assumptions C16_counter_period_exact_all_limits.
+
+Example C16_counter_nonvacuous :
+  0 <= 2 /\ traceB (ccounter_step 2 2) [0] [[]; []; []; []; []] =
+            [Ok [ouns 2 1]; Ok [ouns 2 2]; Ok [ouns 2 0]; Ok [ouns 2 1]; Ok [ouns 2 2]].
+Proof. vm_compute. repeat split; discriminate. Qed.
+
+(** ToggleSignal, all constant durations with first + second >= 1: as coded = specification machine; exact
+    period first+second and exact duty: the level after clock t is [first_state] exactly while
+    (t+1) mod (first+second) < first; rising/falling exactly at the level changes *)
+Theorem C16_toggle_model_is_spec_all_durations : forall (first second : Z) (ds fs : bool) ins,
+  0 <= first -> 0 <= second -> 1 <= first + second ->
+  traceB (togglem_step first second ds fs) (togglem_init ds) ins =
+  traceB (toggle_step first second ds fs) [0; zb ds] ins.
+Proof. exact togglem_refines. Qed.
+Print Assumptions C16_toggle_model_is_spec_all_durations.
+
+Theorem C16_toggle_period_duty_exact_all_durations : forall (first second : Z) (ds fs : bool) ins,
+  0 <= first -> 0 <= second -> 1 <= first + second ->
+  traceB (togglem_step first second ds fs) (togglem_init ds) ins =
+  map (fun t => let s := tg_state first second ds fs t in
+                let s' := tg_state first second ds fs (S t) in
+                Ok [obit s'; obit (negb s && s'); obit (s && negb s')]) (seq 0 (length ins)).
+Proof. exact togglem_closed_form. Qed.
+Print Assumptions C16_toggle_period_duty_exact_all_durations.
+
+Example C16_toggle_nonvacuous :
+  (0 <= 2 /\ 0 <= 1 /\ 1 <= 2 + 1) /\
+  traceB (togglem_step 2 1 false true) (togglem_init false) [[]; []; []; []; []; []] =
+  [Ok [obit true; obit true; obit false]; Ok [obit false; obit false; obit true];
+   Ok [obit true; obit true; obit false]; Ok [obit true; obit false; obit false];
+   Ok [obit false; obit false; obit true]; Ok [obit true; obit true; obit false]].
+Proof. vm_compute. repeat split; discriminate. Qed.
+
+(** ClockDivider, every constant duration: as coded = specification machine (all enable/disable sequences);
+    exact period D and duty 1/D while not disabled; restart from power-up after disable + enable *)
+Theorem C16_divider_model_is_spec_all_durations : forall (D : Z) (ds tas : bool) ins, 1 <= D ->
+  traceB (dividerm_step D ds tas) (dividerm_init D ds tas) ins =
+  traceB (divider_step D ds tas) [0; (if tas then D - 1 else 0); zb ds] ins.
+Proof. exact dividerm_refines. Qed.
+Print Assumptions C16_divider_model_is_spec_all_durations.
+
+Theorem C16_divider_period_duty_exact_all_durations : forall (D : Z) (ds tas : bool) ins, 2 <= D ->
+  Forall never_disabled ins ->
+  traceB (dividerm_step D ds tas) (dividerm_init D ds tas) ins =
+  map (fun t => let s := dv_state D ds tas t in
+                let s' := dv_state D ds tas (S t) in
+                Ok [obit s'; obit (negb s && s'); obit (s && negb s')]) (seq 0 (length ins)).
+Proof. exact dividerm_closed_form. Qed.
+Print Assumptions C16_divider_period_duty_exact_all_durations.
+
+Theorem C16_divider_restart_all_durations : forall (D : Z) (ds tas : bool) c s ri fa en0 rest,
+  traceB (dividerm_step D ds tas) [0; c; s; ri; fa] ([en0; VL true] :: [VL true; VL false] :: rest) =
+  snd (dividerm_step D ds tas [0; c; s; ri; fa] [en0; VL true]) ::
+  Ok [obit ds; obit false; obit false] ::
+  traceB (dividerm_step D ds tas) (dividerm_init D ds tas) rest.
+Proof. exact dividerm_restart. Qed.
+Print Assumptions C16_divider_restart_all_durations.
+
+Example C16_divider_nonvacuous :
+  let run := [VL false; VL false] in
+  (2 <= 3 /\ Forall never_disabled [run; run; run; run]) /\
+  traceB (dividerm_step 3 false true) (dividerm_init 3 false true) [run; run; run; run] =
+  [Ok [obit true; obit true; obit false]; Ok [obit false; obit false; obit true];
+   Ok [obit false; obit false; obit false]; Ok [obit true; obit true; obit false]].
+Proof. vm_compute. repeat split; try discriminate; repeat constructor. Qed.
+
+(** tie to the code, every configuration at once: the two computed hypotheses are what every generated case file
+    of harness/c16.py proves for its parsed design d (non-vacuity: each such case file) *)
+Theorem C16_delay_line_code_matches_model_all_n : forall d mid alphabet fuel (n : nat) (w : BinNums.N) (i : Z), (1 <= n)%nat ->
+  conc_all_ok (auto_Ts d) d = true ->
+  is_ok (rcheck_s d mid (delay_step w) alphabet (fun _ _ => true) fuel (repeat i n)) = true ->
+  forall ins, Forall (fun x => In x alphabet) ins ->
+    traceA (sstep d mid) (power_up_s d) ins = traceB (dline_step w) (dline_init n i) ins.
+Proof. exact dline_code_tie. Qed.
+Print Assumptions C16_delay_line_code_matches_model_all_n.
+
+Theorem C16_counter_code_matches_model_all_limits : forall d mid alphabet fuel (w : BinNums.N) (limit : Z), 0 <= limit ->
+  conc_all_ok (auto_Ts d) d = true ->
+  is_ok (rcheck_s d mid (counter_step w limit) alphabet (fun _ _ => true) fuel [0]) = true ->
+  forall ins, Forall (fun x => In x alphabet) ins ->
+    traceA (sstep d mid) (power_up_s d) ins = traceB (ccounter_step w limit) [0] ins.
+Proof. exact ccounter_code_tie. Qed.
+Print Assumptions C16_counter_code_matches_model_all_limits.
+
+Theorem C16_toggle_code_matches_model_all_durations : forall d mid alphabet fuel (first second : Z) (ds fs : bool),
+  0 <= first -> 0 <= second -> 1 <= first + second ->
+  conc_all_ok (auto_Ts d) d = true ->
+  is_ok (rcheck_s d mid (toggle_step first second ds fs) alphabet (fun _ _ => true) fuel [0; zb ds]) = true ->
+  forall ins, Forall (fun x => In x alphabet) ins ->
+    traceA (sstep d mid) (power_up_s d) ins = traceB (togglem_step first second ds fs) (togglem_init ds) ins.
+Proof. exact togglem_code_tie. Qed.
+Print Assumptions C16_toggle_code_matches_model_all_durations.
+
+Theorem C16_divider_code_matches_model_all_durations : forall d mid alphabet fuel (D : Z) (ds tas : bool), 1 <= D ->
+  conc_all_ok (auto_Ts d) d = true ->
+  is_ok (rcheck_s d mid (divider_step D ds tas) alphabet (fun _ _ => true) fuel
+           [0; (if tas then D - 1 else 0); zb ds]) = true ->
+  forall ins, Forall (fun x => In x alphabet) ins ->
+    traceA (sstep d mid) (power_up_s d) ins = traceB (dividerm_step D ds tas) (dividerm_init D ds tas) ins.
+Proof. exact dividerm_code_tie. Qed.
+Print Assumptions C16_divider_code_matches_model_all_durations.
